@@ -693,6 +693,11 @@ fn emit_fn(cx: &mut Ctx, specs: &mut Specs, em: &mut Emitter, ex: &Extract, file
         if in_trait_impl { if let Some(extra) = specs.get(&format!("implitems {}", name)) { em.raw_block(&extra, "    "); } }
     }
     if nloops > 0 || specs.get(&format!("nodecreases {}", name)).is_some() { em.raw(&format!("{}#[verifier::exec_allows_no_decreases_clause]", indent)); }
+    // what is known before a loop about variables the loop does not assign stays known inside it (an edit that names a value before
+    // the loop instead of inside it must not lose the proof)
+    // (Verus allows this only for plain `invariant` loop contracts)
+    let plain_loops = (0..nloops).all(|k| !specs.get(&format!("loop {} {}", name, k)).unwrap_or_default().lines().any(|l| { let t = l.trim(); t == "invariant_except_break" || t == "ensures" }));
+    if nloops > 0 && plain_loops { em.raw(&format!("{}#[verifier::loop_isolation(false)]", indent)); }
     if let Some(attrs) = specs.get(&format!("attrs {}", name)) { em.raw_block(&attrs, indent); }
     let vis = if in_trait_impl || in_trait.is_some() { "" } else { "pub " };
     let is_stub = ex.kind == "stub";
@@ -1155,7 +1160,8 @@ fn emit_lifted_body(cx: &mut Ctx, specs: &mut Specs, em: &mut Emitter, gens: &[&
     }
     let mut probes: Vec<(usize, String)> = vec![];
     if cx.probe { rewrite::insert_probes(&mut block, &lc.name, em, &mut probes); }
-    if nloops > 0 { em.raw("#[verifier::exec_allows_no_decreases_clause]"); }
+    if nloops > 0 { em.raw("#[verifier::exec_allows_no_decreases_clause]");
+        if (0..nloops).all(|k| !specs.get(&format!("loop {} {}", lc.name, k)).unwrap_or_default().lines().any(|l| { let t = l.trim(); t == "invariant_except_break" || t == "ensures" })) { em.raw("#[verifier::loop_isolation(false)]"); } }
     if drop_this { em.raw("#[verifier::external_body] // @dropped: this body is outside the dialect on this tree; its contract is assumed for the rest of the unit and its own obligations are undecided"); cx.dropped.push(lc.name.clone()); }
     let fn_start = em.line();
     let sig = sig.trim();
